@@ -1,16 +1,17 @@
 (* C02 - compile-time constant arithmetic is exact and matches the Go specification.
    Only statements, `exact`, and Print Assumptions live here. *)
-From Coq Require Import ZArith List Bool QArith.
-From Verif Require Import Facts_consts ConstsM Consts_proofs Consts_proofs2 Consts_proofs3.
+From Coq Require Import ZArith List Bool QArith Qabs.
+From Verif Require Import Facts_consts ConstsM ConstEvalM Consts_proofs Consts_proofs2 Consts_proofs3 Consts_proofs4 Round_core Round_proofs Round_spec Round_arith Round_det.
 Open Scope Z_scope.
 
 (* ---- the full statement, over the model of constant.go: every arithmetic
    operation on number constants of any representation class that yields a
    constant yields the exact result (integer division truncates), and the
-   complex operations never fault on operands below 512 bits.  It is FALSE of
-   the code as it is (C02_statement_refuted): floatConst arithmetic rounds to
-   512 bits, complexConst ignores the overflow of its part operations.  The
-   theorems after it are the proved part. *)
+   complex operations never fault on operands below 512 bits.  The first half
+   is FALSE of the code as it is (C02_statement_refuted): floatConst
+   arithmetic rounds to 512 bits.  The second half holds since the repair of
+   complexConst.binaryOp (C02_complex_total, for operands of every class and
+   size).  The theorems after it are the proved part. *)
 Definition rcQ (c : rc) : Q :=
   match c with
   | I64 z | Big z => inject_Z z
@@ -39,9 +40,24 @@ Proof.
 Qed.
 Print Assumptions C02_statement_refuted.
 
-Theorem C02_complex_total_refuted :
-  exists x, Z.abs x < 2 ^ 512 /\ bin_cplx OMul (Big x) (I64 0) (Big x) (I64 0) = Fault.
-Proof. exact cplx_mul_fault_witness. Qed.
+(* ---- the complex operations never fault: for parts of every representation
+   class and every size each operation yields a constant or an error (the
+   error of the first failing operation on the parts, e.g. the 512 bit
+   overflow of a product).  Before the fix commit the witnesses below were
+   faults (nil dereference in Build). *)
+Theorem C02_complex_total : forall o a b c d, bin_cplx o a b c d <> Fault.
+Proof. exact cplx_no_fault. Qed.
+Print Assumptions C02_complex_total.
+
+Theorem C02_statement_second_half : forall o a b c d, is_field_op o = true ->
+  Z.abs a < 2 ^ 512 -> Z.abs b < 2 ^ 512 -> Z.abs c < 2 ^ 512 -> Z.abs d < 2 ^ 512 ->
+  bin_cplx o (Big a) (Big b) (Big c) (Big d) <> Fault.
+Proof. exact cplx_no_fault_big. Qed.
+
+Example C02_complex_overflow_rejected :
+  bin_cplx OMul (Big (2 ^ 511)) (I64 0) (Big (2 ^ 511)) (I64 0) = Err EMulOverflow /\
+  bin_cplx ODiv (I64 0) (I64 1000) (Big (2 ^ 256 + 1)) (I64 0) = Err EMulOverflow.
+Proof. split; [exact cplx_mul_overflow_witness|exact cplx_div_overflow_witness]. Qed.
 
 (* ---- the int64 fast path: for all int64 operands the overflow tests of the
    code are exact: the result denotes a+b (a-b, a*b) and is an int64Const
@@ -112,33 +128,44 @@ Theorem C02_xor_unsigned : forall z k, is_unsigned_kind k = true -> 0 <= z <= ki
 Proof. exact xor_unsigned. Qed.
 Print Assumptions C02_xor_unsigned.
 
-(* ---- shifts: x << n is x * 2^n, rejected beyond 512 bits; a count >= 512 is
-   rejected for << (whatever x is, also 0); a negative count is rejected;
-   x >> n is the floor of x / 2^n for every count that fits uint *)
+(* ---- shifts: x << n is x * 2^n, rejected beyond 512 bits; for a non-zero x
+   a count >= 512 is rejected; zero can be shifted by every count up to 1074
+   (0 << 512 was rejected before fix d3683c7); for both shifts a count above
+   1074 (the limit of gc) is rejected (1 >> 2000 was accepted before the fix);
+   a negative count is rejected;
+   x >> n is the floor of x / 2^n for every count up to 1074, rejected
+   when the result is beyond 512 bits (0x1p1000 >> 65, accepted before fix
+   c78e043), which never happens for an operand below 512 bits *)
 Theorem C02_shl :
   (forall small z n, 0 <= n < 512 ->
   shift_int OShl small z (Num (I64 n)) =
     if Z.abs (z * 2 ^ n) <? 2 ^ 512 then Ok (Num (Big (z * 2 ^ n))) else Err EShlOverflow) /\
-  (forall small z n, 512 <= n -> in64 n ->
+  (forall small z n, z <> 0 -> 512 <= n -> in64 n ->
   shift_int OShl small z (Num (I64 n)) = Err EShiftLarge) /\
+  (forall small n, 0 <= n -> in64 n ->
+  shift_int OShl small 0 (Num (I64 n)) = if n <=? 1074 then Ok (Num (Big 0)) else Err EShiftLarge) /\
+  (forall o small z n, is_shift o = true -> 1074 < n -> in64 n ->
+  shift_int o small z (Num (I64 n)) = Err EShiftLarge) /\
   (forall o small z n, is_shift o = true -> n < 0 -> in64 n ->
   shift_int o small z (Num (I64 n)) = Err EShiftNeg) /\
-  (forall o n,
-  shift_const_error o (Num (Big n)) =
+  (forall o zero1 n,
+  shift_const_error o zero1 (Num (Big n)) =
     if n <? 0 then Some EShiftNeg
     else if maxu64 <? n then Some EShiftOvfUint
-    else match o with
-         | OShl => if 512 <=? n then Some EShiftLarge else None
-         | _ => None
-         end).
-Proof. split; [exact shl_exact|split; [exact shl_count_limit|split; [exact shift_negative_count|exact shift_count_big]]]. Qed.
+    else count_error o zero1 n).
+Proof. split; [exact shl_exact|split; [exact shl_count_limit|split; [exact shl_zero|split; [exact shift_count_max|split; [exact shift_negative_count|exact shift_count_big]]]]]. Qed.
 Print Assumptions C02_shl.
 
 
 
-Theorem C02_shr_exact : forall small z n, 0 <= n -> in64 n ->
-  shift_int OShr small z (Num (I64 n)) = Ok (Num (if small then I64 (z / 2 ^ n) else Big (z / 2 ^ n))).
-Proof. exact shr_exact. Qed.
+Theorem C02_shr_exact :
+  (forall small z n, 0 <= n <= 1074 ->
+  shift_int OShr small z (Num (I64 n)) =
+    if small then Ok (Num (I64 (z / 2 ^ n)))
+    else if Z.abs (z / 2 ^ n) <? 2 ^ 512 then Ok (Num (Big (z / 2 ^ n))) else Err EShlOverflow) /\
+  (forall z n, 0 <= n <= 1074 -> Z.abs z < 2 ^ 512 ->
+  shift_int OShr false z (Num (I64 n)) = Ok (Num (Big (z / 2 ^ n)))).
+Proof. split; [exact shr_exact|exact shr_no_overflow]. Qed.
 Print Assumptions C02_shr_exact.
 
 
@@ -263,6 +290,147 @@ Theorem C02_f64_shortcuts : forall x y,
 Proof. exact f64_shortcuts. Qed.
 Print Assumptions C02_f64_shortcuts.
 
+(* ---- the checker glue: < <= > >= are rejected on complex types whatever
+   the representation class of the constants is (complex128(1) < 2 was
+   accepted before fix 01e9b06); the kinds are those after the implicit
+   conversion of the untyped operand to the type of the typed one *)
+Theorem C02_ordered_cmp_complex : forall o t1 t2, is_ordered_op o = true ->
+  is_complex_kind (eff_kind1 t1 t2) || is_complex_kind (eff_kind2 t1 t2) = true ->
+  exists e, check_binary o t1 t2 = EErr e.
+Proof. exact ordered_cmp_complex_rejected. Qed.
+Print Assumptions C02_ordered_cmp_complex.
+
+Example C02_example_ordered_cmp_complex :
+  check_binary OLt {| ti_kind := KComplex128; ti_untyped := false; ti_c := Num (F64 (FFin false 1 0)) |}
+                   {| ti_kind := KInt; ti_untyped := true; ti_c := Num (I64 2) |} = EErr CInvalidOp.
+Proof. exact ordered_cmp_complex_example. Qed.
+
+(* ==== correct rounding (for all inputs, unbounded Z and Q) ====
+   T k is 2^k in Q.  in_format prec emin y: y = k * 2^c with |k| < 2^prec and
+   emin <= c.  rounds_to prec emin x r (Round_spec.v): r belongs to the
+   format, no element of the format is nearer to x than r, and r = q' * 2^e'
+   with |x - r| <= 2^e' / 2 and q' even in the case of equality (ties to even).
+   pairQ (q', e') = q' * 2^e'. *)
+
+(* ---- round_mag: the magnitude (a # d) * 2^e, given as its integer part
+   m = a / d > 0 and the sticky flag (a mod d <> 0; then m has more than prec
+   bits), is rounded to the nearest element of the format, ties to even; the
+   exponent of the result is explicit *)
+Theorem C02_round_mag :
+  (forall prec emin a d e, 0 < prec -> 0 < a / Zpos d ->
+     negb (a mod Zpos d =? 0) = false \/ prec < bitlen (a / Zpos d) ->
+     rounds_to prec emin ((a # d) * T e)
+       (pairQ (round_mag prec emin (Z.to_pos (a / Zpos d)) e (negb (a mod Zpos d =? 0))))) /\
+  (forall prec emin m e st, 0 < prec ->
+     snd (round_mag prec emin m e st) =
+       Z.max e (match emin with
+                | Some em => Z.max (bitlen (Zpos m) + e - prec) em
+                | None => bitlen (Zpos m) + e - prec
+                end) /\
+     0 <= fst (round_mag prec emin m e st) <= 2 ^ prec).
+Proof. exact (conj round_mag_rounds round_mag_exponent). Qed.
+Print Assumptions C02_round_mag.
+
+(* ---- properties of every rounding that satisfies rounds_to: monotone,
+   exact on the elements of the format, idempotent *)
+Theorem C02_rounding_laws :
+  (forall prec emin x1 x2 r1 r2,
+     rounds_to prec emin x1 r1 -> rounds_to prec emin x2 r2 -> (x1 < x2)%Q -> (r1 <= r2)%Q) /\
+  (forall prec emin x r, rounds_to prec emin x r -> in_format prec emin x -> (r == x)%Q) /\
+  (forall prec emin x r r', rounds_to prec emin x r -> rounds_to prec emin r r' -> (r' == r)%Q).
+Proof. exact (conj rounds_to_monotone (conj rounds_to_exact rounds_to_idempotent)). Qed.
+Print Assumptions C02_rounding_laws.
+
+(* ---- round_fl, round_Z, round_rat (through quo_bits): floats, integers and
+   rationals n / d rounded to a format, once; rounding of floats is monotone
+   and depends on the value only, not on the representation m * 2^e *)
+Theorem C02_round_functions :
+  (forall f x r, 0 < f_prec f -> round_fl f x = Some r ->
+     rounds_to (f_prec f) (f_emin f) (flQ x) (flQ r)) /\
+  (forall f z r, 0 < f_prec f -> round_Z f z = Some r ->
+     rounds_to (f_prec f) (f_emin f) (inject_Z z) (flQ r)) /\
+  (forall f n d r, 0 < f_prec f -> round_rat f n d = Some r ->
+     rounds_to (f_prec f) (f_emin f) (n # d) (flQ r)) /\
+  (forall f x1 x2 r1 r2, 0 < f_prec f ->
+     round_fl f x1 = Some r1 -> round_fl f x2 = Some r2 -> (flQ x1 <= flQ x2)%Q -> (flQ r1 <= flQ r2)%Q) /\
+  (forall f x1 x2 r1 r2, 0 < f_prec f ->
+     round_fl f x1 = Some r1 -> round_fl f x2 = Some r2 -> (flQ x1 == flQ x2)%Q -> (flQ r1 == flQ r2)%Q) /\
+  (forall f n1 d1 n2 d2 r1 r2, 0 < f_prec f ->
+     round_rat f n1 d1 = Some r1 -> round_rat f n2 d2 = Some r2 -> (n1 # d1 < n2 # d2)%Q -> (flQ r1 <= flQ r2)%Q) /\
+  (forall f x r r', 0 < f_prec f -> round_fl f x = Some r -> round_fl f r = Some r' -> (flQ r' == flQ r)%Q).
+Proof.
+  exact (conj round_fl_rounds (conj round_Z_rounds (conj round_rat_rounds
+        (conj round_fl_monotone_le (conj round_fl_value_det (conj round_rat_monotone round_fl_idempotent)))))).
+Qed.
+Print Assumptions C02_round_functions.
+
+(* ---- overflow to an error: for a format with a maximal exponent mx (and
+   emin + prec <= mx) rounding fails exactly when the magnitude is at least
+   2^mx - 2^(mx - prec - 1), the midpoint between the largest element and
+   2^mx, which is a tie rounded to the even neighbour 2^mx *)
+Theorem C02_round_overflow :
+  (forall f mx x, fmt_ok f mx ->
+     (round_fl f x = None <-> (T mx - T (mx - f_prec f - 1) <= Qabs (flQ x))%Q)) /\
+  (forall f mx n d, fmt_ok f mx ->
+     (round_rat f n d = None <-> (T mx - T (mx - f_prec f - 1) <= Qabs (n # d))%Q)) /\
+  fmt_ok fmt64 1024 /\ fmt_ok fmt32 128.
+Proof. exact (conj round_fl_overflow (conj round_rat_overflow (conj fmt64_ok fmt32_ok))). Qed.
+Print Assumptions C02_round_overflow.
+
+(* ---- big.Float Add, Sub, Mul, Quo, SetInt, SetRat at the precision of
+   floatConst (the generated gen_bigfloat_prec, no exponent limits): the
+   exact result rounded once; big_rounds x r = rounds_to gen_bigfloat_prec None x (flQ r) *)
+Theorem C02_bigfloat_arith :
+  (forall x y, big_rounds (flQ x + flQ y) (fl_add x y)) /\
+  (forall x y, big_rounds (flQ x - flQ y) (fl_sub x y)) /\
+  (forall x y, big_rounds (flQ x * flQ y) (fl_mul x y)) /\
+  (forall x y, fl_is_zero y = false -> big_rounds (flQ x / flQ y) (fl_quo x y)) /\
+  (forall z, big_rounds (inject_Z z) (big_of_Z z)) /\
+  (forall n d, big_rounds (n # d) (big_of_rat n d)).
+Proof.
+  exact (conj fl_add_rounds (conj fl_sub_rounds (conj fl_mul_rounds
+        (conj fl_quo_rounds (conj big_of_Z_rounds big_of_rat_rounds))))).
+Qed.
+Print Assumptions C02_bigfloat_arith.
+
+(* ---- conversion to float64 and float32 (floatConst.representedBy and, since
+   fix 9f165da, ratConst.representedBy): the value rounded once to 53 (24)
+   bits with the IEEE exponent range, subnormals included (last place at least
+   2^-1074, 2^-149), of magnitude below 2^1024 (2^128); rejected with
+   "overflows" exactly from 2^1024 - 2^970 (2^128 - 2^103) on; never a fault.
+   f64_rounds x r = rounds_to 53 (Some (-1074)) x (flQ r) /\ |flQ r| < 2^1024 *)
+Theorem C02_to_float :
+  (forall x,
+     (repr_bigf KFloat64 x = Err EOverflows <-> (T 1024 - T 970 <= Qabs (flQ x))%Q) /\
+     (forall c, repr_bigf KFloat64 x = Ok c -> exists r, c = F64 r /\ f64_rounds (flQ x) r) /\
+     repr_bigf KFloat64 x <> Fault) /\
+  (forall x,
+     (repr_bigf KFloat32 x = Err EOverflows <-> (T 128 - T 103 <= Qabs (flQ x))%Q) /\
+     (forall c, repr_bigf KFloat32 x = Ok c -> exists r, c = F64 r /\ f32_rounds (flQ x) r) /\
+     repr_bigf KFloat32 x <> Fault) /\
+  (forall n d, (d =? 1)%positive = false ->
+     (repr_rat KFloat64 n d = Err EOverflows <-> (T 1024 - T 970 <= Qabs (n # d))%Q) /\
+     (forall c, repr_rat KFloat64 n d = Ok c -> exists r, c = F64 r /\ f64_rounds (n # d) r) /\
+     repr_rat KFloat64 n d <> Fault) /\
+  (forall n d, (d =? 1)%positive = false ->
+     (repr_rat KFloat32 n d = Err EOverflows <-> (T 128 - T 103 <= Qabs (n # d))%Q) /\
+     (forall c, repr_rat KFloat32 n d = Ok c -> exists r, c = F64 r /\ f32_rounds (n # d) r) /\
+     repr_rat KFloat32 n d <> Fault).
+Proof. exact (conj repr_bigf_float64 (conj repr_bigf_float32 (conj repr_rat_float64 repr_rat_float32))). Qed.
+Print Assumptions C02_to_float.
+
+(* non-vacuity of the rounding theorems: ties to even in both directions, a
+   subnormal result, the overflow threshold of float64 *)
+Example C02_example_rounding :
+  round_fl fmt64 (FFin false (2 ^ 53 + 1) 0) = Some (FFin false 1 53) /\
+  round_fl fmt64 (FFin false (2 ^ 53 + 3) 0) = Some (FFin false (2 ^ 51 + 1) 2) /\
+  round_fl fmt64 (FFin false 3 (-1075)) = Some (FFin false 1 (-1073)) /\
+  round_fl fmt64 (FFin false 1 (-1075)) = Some (FZero false) /\
+  round_fl fmt64 (FFin false (2 ^ 54 - 1) 970) = None /\
+  round_fl fmt64 (FFin false (2 ^ 55 - 3) 969) = Some (FFin false (2 ^ 53 - 1) 971) /\
+  round_rat fmt32 1 3 = Some (FFin false 11184811 (-25)).
+Proof. vm_compute. repeat split. Qed.
+
 (* ---- strings and booleans *)
 Theorem C02_str_ops : forall a b,
   binary_op OAdd (Str a) (Str b) = Ok (Str (a ++ b)) /\
@@ -286,6 +454,26 @@ Proof. exact bool_ops. Qed.
 Example C02_example_complex :
   bin_cplx OMul (I64 3) (I64 4) (I64 3) (I64 4) = Ok (Cplx (I64 (-7)) (I64 24)) /\
   bin_cplx ODiv (I64 1) (I64 2) (I64 3) (I64 4) = Ok (Cplx (Rat 11 25) (Rat 2 25)).
+Proof. vm_compute. split; reflexivity. Qed.
+
+Example C02_example_shift_counts :
+  shift_rc OShl (I64 0) (Num (I64 512)) = Ok (Num (Big 0)) /\
+  shift_rc OShl (I64 0) (Num (I64 1075)) = Err EShiftLarge /\
+  shift_rc OShr (I64 1) (Num (I64 2000)) = Err EShiftLarge /\
+  shift_rc OShr (I64 1) (Num (I64 1074)) = Ok (Num (I64 0)) /\
+  shift_rc OShl (I64 1) (Num (I64 512)) = Err EShiftLarge.
+Proof. vm_compute. repeat split. Qed.
+
+Example C02_example_shr_of_float_above_512_bits :
+  shift_rc OShr (BigF (FFin false 1 1000)) (Num (I64 65)) = Err EShlOverflow /\
+  shift_rc OShr (BigF (FFin false 1 600)) (Num (I64 200)) = Ok (Num (Big (2 ^ 400))).
+Proof. vm_compute. split; reflexivity. Qed.
+
+(* a rational constant is rounded once to the float type (fix 9f165da; it was
+   rounded to 512 bits first): 2^53 + 1 + 10^-400 is 2^53 + 2 as a float64 *)
+Example C02_example_rat_rounded_once :
+  repr_rat KFloat64 (9007199254740993 * 10 ^ 400 + 1) (Z.to_pos (10 ^ 400)) = Ok (F64 (FFin false 4503599627370497 1)) /\
+  repr_rat KFloat32 (16777217 * 10 ^ 400 + 1) (Z.to_pos (10 ^ 400)) = Ok (F64 (FFin false 8388609 1)).
 Proof. vm_compute. split; reflexivity. Qed.
 
 Example C02_example_minint_div : bin_i64 ODiv min64 (-1) = Ok (Num (Big (2 ^ 63))).
